@@ -1,6 +1,6 @@
 #!/bin/bash
-# evaluates round-2 seeds under /tmp/seed2/<id>/m<k> against the current checks (first pass, before any strengthening)
-for id in "$@"; do for m in m1 m2 m3; do d=/tmp/seed2/$id/$m; [ -f $d/patch.diff ] || continue
+# evaluates round-2 seeds under ${SEED_DIR:-/tmp/seed2}/<id>/m<k> against the current checks (first pass, before any strengthening)
+for id in "$@"; do for m in m1 m2 m3; do d=${SEED_DIR:-/tmp/seed2}/$id/$m; [ -f $d/patch.diff ] || continue
   res=$(MUTLINES=3 /verif/tools/mutrun.sh $d/patch.diff $id 2>&1); rc=$(echo "$res" | grep -o 'exit=[0-9]*' | head -1 | cut -d= -f2); rule=$(echo "$res" | grep -o 'rule=[^ ]*' | head -1)
   [ -z "$rc" ] && rc="NA:$(echo $res | cut -c1-60)"
   echo "$id $m exit=$rc $rule :: $(python3 -c "import json;print(json.load(open('$d/meta.json'))['summary'][:90])")"
